@@ -29,3 +29,11 @@ def make_exc(key, cls, *args):
 def call0(f):
     """Higher-order use of a function object from untracked code."""
     return f()
+
+
+class CustomError(Exception):
+    """An application-defined exception class."""
+
+
+class CustomBase(BaseException):
+    """An application-defined BaseException subclass."""
